@@ -374,7 +374,7 @@ def r8_shared_children_order(ctx):
 def r9_shared_tokenizer(ctx):
     """the context reader sees every segment of the source: the tokenizer underneath ends only when the stream is exhausted and loses nothing at a buffer boundary (C01.R3 / R5, shared)"""
     from . import c01
-    for fn in (c01.r3_tokenizer_exits, c01.r5_strip_set):
+    for fn in (c01.r3_tokenizer_exits, c01.r5_strip_set, c01.r11_reader_iteration):
         for o in fn(ctx):
             yield o
 
@@ -395,6 +395,23 @@ def r11_shared_matching(ctx):
         yield o
 
 
+def r12_shared_wrapper_loops(ctx):
+    """the tree a segment is placed in is the one the walker matched: a loop that only wraps other loops is entered when
+    any of its child loops begins with the segment - with a later child overlooked the segment is located elsewhere (or
+    not at all) and the yielded trees no longer follow the map.  C02.R10 (shared)."""
+    from . import c02
+    for o in c02.r10_wrapper_loops(ctx):
+        yield o
+
+def r13_shared_position_getters(ctx):
+    """each yielded segment carries its position in the set and its source line: the values come from the reader's
+    get_seg_count / get_cur_line (and the LS identifier from get_ls_id), which must answer their counter / the open
+    loop of their kind.  C05.R19 (shared)."""
+    from . import c05
+    for o in c05.r19_open_envelope_ids(ctx):
+        yield o
+
+
 RULES = [
     Rule('C09.R11', 'shared with C02.R14: segment_if.is_match decided by constant propagation', r11_shared_matching, floor=1),
     Rule('C09.R1', 'the tree under construction is yielded on every path to the end of the generator', r1_flush, floor=1),
@@ -406,5 +423,7 @@ RULES = [
     Rule('C09.R10', 'shared with C04.R7: the position counter counts every body segment once and restarts at ST (constant propagation)', r10_shared_position_counter, floor=1),
     Rule('C09.R9', 'shared with C01.R3/R5: the tokenizer ends only at end of input, nothing lost at a buffer boundary', r9_shared_tokenizer, floor=6),
     Rule('C09.R8', 'shared with C10.R3: the tombstone sweep keeps the live children in source order', r8_shared_children_order, floor=10),
+    Rule('C09.R12', 'shared with C02.R10: a wrapper loop matches iff any of its child loops does (constant propagation)', r12_shared_wrapper_loops, floor=1),
+    Rule('C09.R13', 'shared with C05.R19: the reader getters behind seg_count / cur_line_number / ls_id answer their own counter', r13_shared_position_getters, floor=6),
     Rule('C09.R7', 'both drivers restart every functional group at the GS node of the transaction map (constant propagation through one iteration)', r7_reanchor_at_gs, floor=2),
 ]
